@@ -82,8 +82,9 @@ func pkgAllowDiv(p *ssa.Package) bool {
 // functions of xmath/num outside the translated fragment that other targets may call: the total form of the
 // hand-written model function (Lemmas/GenNumModel.lean), whose specification is proved under C01
 var modelCalls = map[string]struct{ lean, partial string }{
-	"Int128.Div": {"GenNum.Int128_Div", "panics when the divisor is zero"},
-	"Int128.Mod": {"GenNum.Int128_Mod", "panics when the divisor is zero"},
+	"Int128.Div":    {"GenNum.Int128_Div", "panics when the divisor is zero"},
+	"Int128.Mod":    {"GenNum.Int128_Mod", "panics when the divisor is zero"},
+	"Int128.DivMod": {"GenNum.Int128_DivMod", "panics when the divisor is zero"},
 }
 
 const fixedPath = "github.com/richardwilkes/toolbox/xmath/fixed"
@@ -514,6 +515,7 @@ type gen struct {
 	gorder     []*ssa.Global
 	gbad       map[*ssa.Global]string
 	callees    map[*ssa.Function][]*ssa.Function
+	tables     map[*ssa.Global]*table
 	fueledFn   map[*ssa.Function]bool
 	monadicFn  map[*ssa.Function]bool
 }
@@ -1109,6 +1111,20 @@ func (t *fnTrans) walk(b *ssa.BasicBlock, predIdx int, e *env, stop *ssa.BasicBl
 			}
 			bindOpt(i, fn+" "+par(x)+" "+lo+" "+hi)
 		case *ssa.IndexAddr:
+			if gl, isG := i.X.(*ssa.Global); isG {
+				// a package-level array of constants that the package never writes, read at a constant index: the constant
+				c, isC := i.Index.(*ssa.Const)
+				if !isC || c.Value == nil {
+					fail("index into the package variable %s with a non-constant index", gl.Name())
+				}
+				k, exact := constant.Int64Val(constant.ToInt(c.Value))
+				vals, w := t.g.tableValue(gl)
+				if !exact || k < 0 || int(k) >= len(vals) {
+					fail("index into the package variable %s out of range", gl.Name())
+				}
+				e.vals[i] = val{k: kRefF, fields: []val{lit(vals[k], w)}}
+				continue
+			}
 			x, idx := t.get(i.X, e), t.get(i.Index, e)
 			if x.k != kSlice || idx.k != kInt {
 				fail("element address in %s", i.X.Type().String())
@@ -2057,7 +2073,9 @@ func (t *fnTrans) call(i *ssa.Call, e *env) val {
 		}
 		if !t.g.translate(callee) {
 			mc, has := modelCalls[strings.TrimPrefix(t.g.names[callee], "num.")]
-			if !t.g.aux[callee.Pkg] || !has {
+			if !t.g.aux[callee.Pkg] || !has || t.g.aux[t.f.Pkg] {
+				// (a function of an auxiliary package is translated exactly as in the run of its own target, where
+				// nothing is taken by the model: otherwise this run would refer to definitions that file does not have)
 				fail("calls %s, which is outside the fragment", t.g.names[callee])
 			}
 			// a function of an auxiliary package outside the fragment: taken by the hand-written model
@@ -2232,6 +2250,97 @@ func (g *gen) globalValue(gl *ssa.Global) val {
 	return namedOfType(g.globals[gl].name, elem)
 }
 
+// tableValue: a package-level ARRAY of integers may be read as its initial contents when it is initialised with a
+// composite literal of constants and every use of the variable in the package is `&v[i]` followed only by loads
+// (no store, no slice of it, no address that escapes).
+func (g *gen) tableValue(gl *ssa.Global) ([]*big.Int, int) {
+	if why, bad := g.gbad[gl]; bad {
+		fail("%s", why)
+	}
+	if t, ok := g.tables[gl]; ok {
+		return t.vals, t.w
+	}
+	bad := func(format string, a ...any) {
+		g.gbad[gl] = fmt.Sprintf(format, a...)
+		fail("%s", g.gbad[gl])
+	}
+	if g.pkgs[gl.Pkg] == nil {
+		bad("reads the variable %s of another package", gl.Name())
+	}
+	arr, isArr := gl.Type().Underlying().(*types.Pointer).Elem().Underlying().(*types.Array)
+	if !isArr {
+		bad("reads the package variable %s of type %s", gl.Name(), gl.Type().String())
+	}
+	w, _, isI := intInfo(arr.Elem())
+	if !isI {
+		bad("reads the package variable %s of type %s", gl.Name(), gl.Type().String())
+	}
+	for _, f := range allFuncs(gl.Pkg) {
+		if f.Name() == "init" && f.Synthetic != "" {
+			continue
+		}
+		for _, b := range f.Blocks {
+			for _, ins := range b.Instrs {
+				for _, op := range ins.Operands(nil) {
+					if *op != ssa.Value(gl) {
+						continue
+					}
+					ia, ok := ins.(*ssa.IndexAddr)
+					if !ok || ia.X != ssa.Value(gl) || ia.Referrers() == nil {
+						bad("reads the package variable %s, which is written or has its address taken in %s", gl.Name(), f.Name())
+					}
+					for _, r := range *ia.Referrers() {
+						if _, dbg := r.(*ssa.DebugRef); dbg {
+							continue
+						}
+						if u, isU := r.(*ssa.UnOp); !isU || u.Op != token.MUL {
+							bad("reads the package variable %s, an element of which is written or has its address taken in %s", gl.Name(), f.Name())
+						}
+					}
+				}
+			}
+		}
+	}
+	cl, ok := g.initExpr(gl).(*ast.CompositeLit)
+	if !ok {
+		bad("reads the package variable %s, whose initialiser is not a composite literal", gl.Name())
+	}
+	info := g.pkgs[gl.Pkg].TypesInfo
+	vals := make([]*big.Int, arr.Len())
+	for k := range vals {
+		vals[k] = big.NewInt(0)
+	}
+	next := int64(0)
+	for _, el := range cl.Elts {
+		ex := el
+		if kv, isKV := el.(*ast.KeyValueExpr); isKV {
+			ktv, has := info.Types[kv.Key]
+			if !has || ktv.Value == nil {
+				bad("reads the package variable %s, whose initialiser has a non-constant key", gl.Name())
+			}
+			next, _ = constant.Int64Val(constant.ToInt(ktv.Value))
+			ex = kv.Value
+		}
+		tv, has := info.Types[ex]
+		if !has || tv.Value == nil || next < 0 || next >= int64(len(vals)) {
+			bad("reads the package variable %s, whose initialiser is not constant", gl.Name())
+		}
+		bi, okB := new(big.Int).SetString(constant.ToInt(tv.Value).ExactString(), 10)
+		if !okB {
+			bad("reads the package variable %s, whose initialiser is not an integer", gl.Name())
+		}
+		vals[next] = bi
+		next++
+	}
+	g.tables[gl] = &table{vals: vals, w: w}
+	return vals, w
+}
+
+type table struct {
+	vals []*big.Int
+	w    int
+}
+
 func allFuncs(p *ssa.Package) []*ssa.Function {
 	var out []*ssa.Function
 	seen := map[*ssa.Function]bool{}
@@ -2344,7 +2453,7 @@ func main() {
 			state: map[*ssa.Function]int{}, reason: map[*ssa.Function]string{}, text: map[*ssa.Function]string{},
 			globals: map[*ssa.Global]*global{}, gbad: map[*ssa.Global]string{}, pkgs: map[*ssa.Package]*packages.Package{},
 			partial: map[*ssa.Function]string{}, aux: map[*ssa.Package]bool{}, modelTaken: map[string]string{},
-			need: map[*ssa.Function]map[string]bool{}, callees: map[*ssa.Function][]*ssa.Function{}, fueledFn: map[*ssa.Function]bool{}, monadicFn: map[*ssa.Function]bool{}}
+			need: map[*ssa.Function]map[string]bool{}, callees: map[*ssa.Function][]*ssa.Function{}, tables: map[*ssa.Global]*table{}, fueledFn: map[*ssa.Function]bool{}, monadicFn: map[*ssa.Function]bool{}}
 		nOwn := 0
 		for k, path := range append(append([]string{}, cur.pkgs...), cur.aux...) {
 			tp := byPath[path]
